@@ -373,15 +373,50 @@ fn gen_plan(id: &str, seed: u64, _run: u64, tier: Tier) -> PlanA {
                 p.reports[victim].meas = m;
                 p.reports[victim].byz.push(ByzEdit::SplitOne { flip_level: 0, dist: dist as u16 });
             }
+            // long candidate lists (65 .. 300 candidates, more than any plausible evaluation window / cache size) with
+            // the victim's on-path prefix at a seeded rank; sometimes exactly one candidate
+            let long = !split && bits >= 8 && rng.chance(1, 5);
+            let single = !split && !long && rng.chance(1, 6);
+            let victim_pre = rng.usize_below(k);
+            if long {
+                let plen = (7 + rng.usize_below(3)).min(bits);
+                let total = 1usize << plen;
+                let want = (65 + rng.usize_below(236)).min(total);
+                let m = &p.reports[victim_pre].meas;
+                let on: usize = m[..plen].iter().fold(0usize, |a, b| (a << 1) | (b.0 != 0) as usize);
+                // a window of `want` consecutive prefixes that contains the on-path one at rank `at`
+                let at = rng.usize_below(want);
+                let lo = on.saturating_sub(at).min(total - want);
+                let mut cands: Vec<String> = (lo..lo + want).map(|v| (0..plen).map(|i| if (v >> (plen - 1 - i)) & 1 == 1 { '1' } else { '0' }).collect()).collect();
+                if rng.chance(1, 3) {
+                    // thin it out, keeping the on-path prefix and at least 65 candidates
+                    let onp: String = (0..plen).map(|i| if (on >> (plen - 1 - i)) & 1 == 1 { '1' } else { '0' }).collect();
+                    let mut kept: Vec<String> = Vec::new();
+                    for c in cands.iter() {
+                        if *c == onp || cands.len() - kept.len() <= 65 || rng.chance(4, 5) {
+                            kept.push(c.clone());
+                        }
+                    }
+                    if kept.len() >= 65 {
+                        cands = kept;
+                    }
+                }
+                p.aps = vec![cands];
+            } else if single {
+                let plen = 1 + rng.usize_below(bits);
+                let m = &p.reports[victim_pre].meas;
+                p.aps = vec![vec![crate::inst_poplar::bits_to_string(&m[..plen])]];
+            }
             let naps = p.aps.len() as u32;
             if (byz || both) && !split {
-                let victim = rng.usize_below(k);
+                let victim = if long || single { victim_pre } else { rng.usize_below(k) };
                 let ne = if rng.chance(3, 4) { 1 } else { 2 };
                 for _ in 0..ne {
                     // aim at a queried level most of the time
                     let qlevel = (p.aps[rng.usize_below(p.aps.len())][0].len() - 1) as u16;
                     let level = if rng.chance(3, 4) { qlevel } else { rng.below(bits as u64) as u16 };
-                    let e = match rng.below(10) {
+                    let e = match rng.below(12) {
+                        10 | 11 => ByzEdit::GuessR { level, beta: rng.pick(&["2", "-1", "rand"]).to_string(), guess: *rng.pick(&[1u8, 1, 2, 0]) },
                         0..=4 => ByzEdit::Payload { level, beta: rng.pick(&["0", "2", "-1", "rand", "1", "2", "rand"]).to_string(), consistent: rng.chance(2, 3) },
                         5 => ByzEdit::SeedCw { m: gen_mutation(rng, true) },
                         6 | 7 => ByzEdit::CorrShare { agg: rng.below(2) as u8, level, which: rng.below(2) as u8, delta: N(rng.u128()) },
